@@ -22,6 +22,9 @@ def harnesses(tier):
             scenario_harness("nested", Profile(
                 templates=("N12",), raises="free", crit_job="free", crit_sched="free", perm="id"), [],
                 sampler=smp),
+            scenario_harness("nested-cancelled-while-tidying", Profile(
+                templates=("N12",), forever="free", lat="free", timeout="always", timeout_scope="top", perm="id",
+                crit_job=False, edges="none"), [], sampler=smp),
             scenario_harness("inspected-and-edited-before-run", Profile(
                 templates=("F3",), window="free", crit_job=False, perm="id", top="pure"), [], sampler=smp,
                 pre=edit_before_run),
